@@ -471,6 +471,9 @@ def _execute(invokes, path, res, owners, classes, sizes, psy_from=None):
 
 
 def _pack_invokes(elems):
+    """Invokes of the elements as one executed program.  Named invokes get
+    unique names e<k> (the enumerated names are judged by the static oracle;
+    executed programs only keep the named / unnamed distinction)."""
     invokes = []
     owners = []
     for elem in elems:
